@@ -1,0 +1,95 @@
+//! Verification hook (feature `verif_hooks`, off by default).
+//!
+//! When armed by a test harness, records the sequence of `next()` calls, source
+//! reads and skip restarts performed by the lexer on the current thread, and
+//! enforces an optional per-attempt read budget. Unarmed it costs one
+//! thread-local boolean test per event. It never changes lexing results.
+
+use std::cell::{Cell, RefCell};
+use std::vec::Vec;
+
+/// One observed lexer event.
+#[derive(Clone, Copy, Debug, PartialEq, Eq)]
+pub enum Event {
+    /// `Iterator::next` was called with the previous item ending at `pos`.
+    Next { pos: usize },
+    /// The generated code asked for `size` bytes at `offset` of a source of length `len`.
+    Read {
+        offset: usize,
+        size: usize,
+        len: usize,
+    },
+    /// A skip was taken; the match attempt restarts at `pos`.
+    Restart { pos: usize },
+}
+
+/// Panic payload used when the read budget of one match attempt is exhausted.
+pub const BUDGET_PANIC: &str = "VERIF_READ_BUDGET_EXCEEDED";
+
+thread_local! {
+    static ARMED: Cell<bool> = const { Cell::new(false) };
+    static KEEP: Cell<bool> = const { Cell::new(false) };
+    static BUDGET: Cell<usize> = const { Cell::new(usize::MAX) };
+    static READS: Cell<usize> = const { Cell::new(0) };
+    static LOG: RefCell<Vec<Event>> = const { RefCell::new(Vec::new()) };
+}
+
+/// Start observing on this thread. `keep_events` stores every event in the log,
+/// otherwise only the per-attempt read counter and budget are maintained.
+/// `budget` is the maximal number of reads one match attempt may perform.
+pub fn arm(keep_events: bool, budget: usize) {
+    ARMED.with(|a| a.set(true));
+    KEEP.with(|k| k.set(keep_events));
+    BUDGET.with(|b| b.set(budget));
+    READS.with(|r| r.set(0));
+    LOG.with(|l| l.borrow_mut().clear());
+}
+
+/// Stop observing on this thread and return the recorded events.
+pub fn disarm() -> Vec<Event> {
+    ARMED.with(|a| a.set(false));
+    LOG.with(|l| core::mem::take(&mut *l.borrow_mut()))
+}
+
+/// Take the events recorded so far without disarming.
+pub fn drain() -> Vec<Event> {
+    LOG.with(|l| core::mem::take(&mut *l.borrow_mut()))
+}
+
+#[inline]
+fn push(event: Event) {
+    if KEEP.with(|k| k.get()) {
+        LOG.with(|l| l.borrow_mut().push(event));
+    }
+}
+
+#[inline]
+pub(crate) fn on_next(pos: usize) {
+    if ARMED.with(|a| a.get()) {
+        READS.with(|r| r.set(0));
+        push(Event::Next { pos });
+    }
+}
+
+#[inline]
+pub(crate) fn on_restart(pos: usize) {
+    if ARMED.with(|a| a.get()) {
+        READS.with(|r| r.set(0));
+        push(Event::Restart { pos });
+    }
+}
+
+#[inline]
+pub(crate) fn on_read(offset: usize, size: usize, len: usize) {
+    if ARMED.with(|a| a.get()) {
+        push(Event::Read { offset, size, len });
+        let reads = READS.with(|r| {
+            r.set(r.get() + 1);
+            r.get()
+        });
+        if reads > BUDGET.with(|b| b.get()) {
+            ARMED.with(|a| a.set(false));
+            panic!("{}", BUDGET_PANIC);
+        }
+    }
+}
